@@ -38,10 +38,9 @@ def run_parts(resp):
 
 
 def proj_run(resp):
-    """observables of a run: outcome class (+ error class), stdout, lines read — not the wording"""
+    """observables of a run: outcome class (ok / runtime error / parse error), stdout, lines read — neither the wording of
+    an error nor the name of its internal error variant (no property fixes those: a refactoring may merge or rename them)"""
     c, d, out, reads = run_parts(resp)
-    if c == 'rterr':
-        return (c, d, out, reads)
     if c == 'parseerr':
         return (c, '', out, reads)
     return (c, '', out, reads)
@@ -437,8 +436,8 @@ def check_law_output(lines, c, d, a, b, ans):
     o = rest[1:]
     cmp_ab = ans[('cmp', a, b)]
     if cmp_ab == 'err':
-        if c != 'rterr' or d != 'InvalidComparison' or len(o) > 1 or (o and o[0] != ''):
-            return 'ordering of an invalid pair is not an InvalidComparison error'
+        if c != 'rterr' or len(o) > 1 or (o and o[0] != ''):
+            return 'ordering of an invalid pair is not a runtime error at the first comparison'
         return None
     if len(o) < 5:
         return 'ordering section stopped early: %s %s' % (c, d)
@@ -809,15 +808,15 @@ def c08(run):
                 else:
                     if out2 != out[:k]:
                         run.fail(case, 'bytes written before a write fault are not exactly the first k bytes of the fault-free output')
-                    if c2 != 'rterr' or d2 != 'IOError':
-                        run.fail(case, 'a write fault does not stop the program with an I/O error (got %s %s)' % (c2, d2))
+                    if c2 != 'rterr':
+                        run.fail(case, 'a write fault does not stop the program with a runtime error (got %s %s)' % (c2, d2))
                     if reads2 > reads:
                         run.fail(case, 'input was read after the write fault')
             else:
                 if k < reads:
                     # the fault-free run asked for line k: the faulty run must stop there
-                    if c2 != 'rterr' or d2 != 'IOError':
-                        run.fail(case, 'a read fault does not stop the program with an I/O error (got %s %s)' % (c2, d2))
+                    if c2 != 'rterr':
+                        run.fail(case, 'a read fault does not stop the program with a runtime error (got %s %s)' % (c2, d2))
                     if not out.startswith(out2):
                         run.fail(case, 'output of a run with a read fault is not a prefix of the fault-free output')
                     if reads2 != k:
